@@ -342,27 +342,25 @@ structure BankAcc where
   signals : List (String × String × Width) := []
   defaults : AMap WireValue := []
 
-def step3Register (fl : Flags) (s1 : Step1) (constants : AMap WireValue) (bank : String) (inP outP : Char)
-    (st : Step3 × BankAcc) (r : RegDecl) : Step3 × BankAcc :=
-  let (s, acc) := st
-  let inName := String.ofList [inP, '_'] ++ r.name
-  let outName := String.ofList [outP, '_'] ++ r.name
-  let s := { s with wireTypes := (s.wireTypes.insert inName .bankInput).insert outName .bankOutput }
+/-- the checks made on a register before its default is evaluated: the diagnostics and the updated list of
+    register signal names seen so far -/
+def regPre (s1 : Step1) (constants : AMap WireValue) (bank inName outName : String) (acc : BankAcc)
+    (seenRegisters : List String) (r : RegDecl) : List Diag × List String :=
   let e1 : List Diag := (dedupS (refs r.default)).flatMap fun n =>
     if s1.wires.contains n && !constants.contains n then List.replicate (occurrences r.default n) ⟨.NonConstantWireRead, [n]⟩ else []
   let e2 : List Diag := [inName, outName].flatMap fun n =>
     if s1.declared.contains n then [⟨.RedeclaredWire, [n]⟩] else []
   let e3 : List Diag := if acc.defaults.contains outName then [⟨.DuplicateRegister, [bank, r.name]⟩] else []
   let e4 : List Diag := if s1.assignments.contains outName then [⟨.DoubleAssignedRegisterWire, [outName]⟩] else []
-  let (e5, seen) : List Diag × List String :=
-    if s.seenRegisters.contains outName then ([⟨.DoubleDeclaredRegisterOutWire, [outName]⟩], s.seenRegisters)
-    else ([], s.seenRegisters ++ [outName])
-  let (e6, seen) : List Diag × List String :=
-    if seen.contains inName then ([⟨.DoubleDeclaredRegisterOutWire, [inName]⟩], seen)
-    else ([], seen ++ [inName])
-  let errs := e1 ++ e2 ++ e3 ++ e4 ++ e5 ++ e6
-  let s := { s with seenRegisters := seen, errors := s.errors ++ errs }
-  if !errs.isEmpty then (s, acc) else
+  let e5 : List Diag := if seenRegisters.contains outName then [⟨.DoubleDeclaredRegisterOutWire, [outName]⟩] else []
+  let seen1 : List String := if seenRegisters.contains outName then seenRegisters else seenRegisters ++ [outName]
+  let e6 : List Diag := if seen1.contains inName then [⟨.DoubleDeclaredRegisterOutWire, [inName]⟩] else []
+  let seen : List String := if seen1.contains inName then seen1 else seen1 ++ [inName]
+  (e1 ++ e2 ++ e3 ++ e4 ++ e5 ++ e6, seen)
+
+/-- check, fix up and evaluate a register's default, and record the register -/
+def regEval (fl : Flags) (constants : AMap WireValue) (bank inName outName : String) (s : Step3) (acc : BankAcc) (r : RegDecl) :
+    Step3 × BankAcc :=
   let cw : AMap Width := constants.map (fun p => (p.1, p.2.width))
   match checkFixEval fl cw.toCtx constants.toEnv r.default with
   | .ok value =>
@@ -375,6 +373,16 @@ def step3Register (fl : Flags) (s1 : Step1) (constants : AMap WireValue) (bank :
        { signals := acc.signals ++ [(inName, outName, r.width)], defaults := acc.defaults.insert outName dv })
     | .error _ => ({ s with errors := s.errors ++ e7 ++ panicDiag }, acc)
   | .error ds => ({ s with errors := s.errors ++ ds }, acc)
+
+def step3Register (fl : Flags) (s1 : Step1) (constants : AMap WireValue) (bank : String) (inP outP : Char)
+    (st : Step3 × BankAcc) (r : RegDecl) : Step3 × BankAcc :=
+  let (s, acc) := st
+  let inName := String.ofList [inP, '_'] ++ r.name
+  let outName := String.ofList [outP, '_'] ++ r.name
+  let s := { s with wireTypes := (s.wireTypes.insert inName .bankInput).insert outName .bankOutput }
+  let pre := regPre s1 constants bank inName outName acc s.seenRegisters r
+  let s := { s with seenRegisters := pre.2, errors := s.errors ++ pre.1 }
+  if !pre.1.isEmpty then (s, acc) else regEval fl constants bank inName outName s acc r
 
 def step3Bank (fl : Flags) (cls : CharClass) (s1 : Step1) (constants : AMap WireValue) (s : Step3) (b : BankDecl) : Step3 :=
   match b.name.toList with
@@ -391,6 +399,18 @@ def step3Bank (fl : Flags) (cls : CharClass) (s1 : Step1) (constants : AMap Wire
     { s with banks := s.banks ++ [{ label := b.name, signals := acc.signals, defaults := acc.defaults, stall := stall, bubble := bubble }] }
   | _ => { s with errors := s.errors ++ [⟨.InvalidRegisterBankName, [b.name]⟩] }
 
+/-- `for p in pairs { m.insert(p.0, p.1) }` -/
+def insertAll {α : Type} (m : AMap α) (pairs : List (String × α)) : AMap α := pairs.foldl (fun m p => m.insert p.1 p.2) m
+
+/-- the widths the loop over the register banks records: per signal the output and the input wire, then the two control signals -/
+def bankPairs (banks : List RegisterBank) : List (String × Width) :=
+  banks.flatMap fun b => (b.signals.flatMap fun sg => [(sg.2.1, sg.2.2), (sg.1, sg.2.2)]) ++ [(b.stall, .bits 1), (b.bubble, .bits 1)]
+def bankOuts (banks : List RegisterBank) : List String := banks.flatMap fun b => b.signals.map (·.2.1)
+def bankIns (banks : List RegisterBank) : List String := banks.flatMap fun b => b.signals.map (·.1)
+/-- step 5: the resolved constants with their widths, in the order of `constants_raw` -/
+def constPairs (keys : List String) (constants : AMap WireValue) : List (String × Width) :=
+  keys.filterMap fun k => (constants.get? k).map fun v => (k, v.width)
+
 def Program.new (fl : Flags) (cls : CharClass) (o : Orders) (fixed : List FixedFunction) (stmts : List Stmt) : C Program :=
   let fixedNames := dedupS (fixed.flatMap fun f => f.inWires.map (·.1) ++ (match f.outWire with | some (n, _) => [n] | none => []))
   let fixedOut := fixed.filterMap fun f => f.outWire.map (·.1)
@@ -406,12 +426,11 @@ def Program.new (fl : Flags) (cls : CharClass) (o : Orders) (fixed : List FixedF
   | .ok constants =>
   -- Step 3
   let s3 := s1.banksRaw.foldl (step3Bank fl cls s1 constants) { wireTypes := s1.wireTypes }
-  let (wires, known, needed) := s3.banks.foldl (fun (acc : AMap Width × List String × List String) bank =>
-      let (wires, known, needed) := acc
-      let (wires, known, needed) := bank.signals.foldl (fun (acc : AMap Width × List String × List String) sig =>
-        let (wires, known, needed) := acc
-        ((wires.insert sig.2.1 sig.2.2).insert sig.1 sig.2.2, setInsert known sig.2.1, setInsert needed sig.1)) (wires, known, needed)
-      ((wires.insert bank.stall (.bits 1)).insert bank.bubble (.bits 1), known, needed)) (s1.wires, [], s1.needed)
+  -- the loop over the banks' signals fills three independent tables: the widths, the known values (register
+  -- outputs) and the wires that need an assignment (register inputs)
+  let wires := insertAll s1.wires (bankPairs s3.banks)
+  let known := (bankOuts s3.banks).foldl setInsert []
+  let needed := (bankIns s3.banks).foldl setInsert s1.needed
   -- Step 4
   let e4 : List Diag := needed.flatMap fun n =>
     if s1.assignments.contains n then [] else
@@ -419,10 +438,9 @@ def Program.new (fl : Flags) (cls : CharClass) (o : Orders) (fixed : List FixedF
     else if s3.registerIns.contains n then [⟨.UnsetRegisterInputWire, [n]⟩]
     else [⟨.UnsetBuiltinWire, [n]⟩]
   -- Step 5
-  let (wires, known) := s1.constantsRaw.keys.foldl (fun (acc : AMap Width × List String) k =>
-      match constants.get? k with
-      | some v => (acc.1.insert k v.width, setInsert acc.2 k)
-      | none => acc) (wires, known)
+  let cpairs := constPairs s1.constantsRaw.keys constants
+  let wires := insertAll wires cpairs
+  let known := (cpairs.map (·.1)).foldl setInsert known
   let missingConst := s1.constantsRaw.keys.any (fun k => !constants.contains k)      -- `.unwrap()` on a missing constant
   let errs3 := s3.errors ++ e4
   if !errs3.isEmpty then .error errs3 else
